@@ -17,7 +17,7 @@ TECHNIQUE = "runtime monitoring: class-invariant contracts + explicit reference 
 RULE = ("all chains n=2..8, all rectangular grids and triangular grids (periodic and open_x) with sides 2..6 including l_x != l_y, all "
         "cubic grids with sides 2..4 (quick); larger bounds in thorough; non-trivial = constructed or refused instance with >= 2 sites; "
         "distinct = (class, sides, boundary)")
-MIN_NONTRIVIAL = {"quick": 100, "thorough": 180}
+MIN_NONTRIVIAL = {"quick": 100, "thorough": 150}
 TIMEOUT = {"quick": 900, "thorough": 3600}
 ASSUMPTIONS = ["default-constructed lattices (only side lengths and the open_x flag vary) plus one non-default hop_signs/coord_num instance per class for the round trip",
                "cubic lattice has no adjacency method: its adjacency is derived from get_nearest_neighbors"]
